@@ -764,6 +764,75 @@ def _method(tree, name):
     return fn[0]
 
 
+LITERAL = {
+    # methods whose text is compared literally (modulo formatting) with what the model was written from
+    "__init__": """
+def __init__(self, other=None):
+    self.item_index_map = dict()
+    self.item_list = []
+    self.dead_indices = []
+    self._compactions = 0
+    self._c_max_size = 0
+    if other:
+        self.update(other)
+""",
+    "from_iterable": """
+@classmethod
+def from_iterable(cls, it):
+    "from_iterable(it) -> create a set from an iterable"
+    return cls(it)
+""",
+    "__eq__": """
+def __eq__(self, other):
+    if isinstance(other, IndexedSet):
+        return len(self) == len(other) and list(self) == list(other)
+    try:
+        return set(self) == set(other)
+    except TypeError:
+        return False
+""",
+    "__ior__": "def __ior__(self, *others):\n    self.update(*others)\n    return self\n",
+    "__iand__": "def __iand__(self, *others):\n    self.intersection_update(*others)\n    return self\n",
+    "__isub__": "def __isub__(self, *others):\n    self.difference_update(*others)\n    return self\n",
+    "__ixor__": "def __ixor__(self, *others):\n    self.symmetric_difference_update(*others)\n    return self\n",
+}
+OPERATOR_TABLE = {"__or__": "union", "__ror__": "union", "__and__": "intersection", "__rand__": "intersection",
+                  "__sub__": "difference", "__xor__": "symmetric_difference", "__rxor__": "symmetric_difference"}
+
+
+def _strip_doc(fn):
+    body = fn.body
+    if body and isinstance(body[0], ast.Expr) and isinstance(body[0].value, ast.Constant) and isinstance(body[0].value.value, str):
+        body = body[1:]
+    return [ast.dump(x) for x in body], ast.dump(fn.args), [ast.dump(d) for d in fn.decorator_list]
+
+
+def check_literals(tree):
+    """fail closed unless the constructor, from_iterable, __eq__, the in-place operators and the operator aliases are
+    the text the model and the harness (which rotates method / operator forms) rely on"""
+    cls = [n for n in tree.body if isinstance(n, ast.ClassDef) and n.name == "IndexedSet"]
+    if len(cls) != 1:
+        raise Unsupported("class IndexedSet not found")
+    for name, text in LITERAL.items():
+        got = [n for n in cls[0].body if isinstance(n, ast.FunctionDef) and n.name == name]
+        want = ast.parse(text).body[0]
+        if len(got) != 1 or _strip_doc(got[0]) != _strip_doc(want):
+            raise Unsupported("IndexedSet.%s is not the expected text" % name)
+    table = {}
+    for n in cls[0].body:
+        if isinstance(n, ast.Assign) and isinstance(n.value, ast.Name):
+            for t in n.targets:
+                if isinstance(t, ast.Name):
+                    if t.id in table:
+                        raise Unsupported("%s assigned twice" % t.id)
+                    table[t.id] = n.value.id
+    if table != OPERATOR_TABLE:
+        raise Unsupported("operator aliases changed: %r" % (table,))
+    defs = [n.name for n in cls[0].body if isinstance(n, ast.FunctionDef)]
+    if len(defs) != len(set(defs)):
+        raise Unsupported("a method of IndexedSet is defined twice")
+
+
 HEADER = """(* GENERATED on every run by harness/translators/c11_ops.py from %s (IndexedSet.remove, pop, add, discard, clear, reverse, sort, index, __getitem__ on an int); do not edit. *)
 From Boltons Require Import Lib.Prelude Lib.PySrc Lib.C11_Iface Model.C11_Model Lib.C11_PyImp Gen.C11_Src Gen.C11_Cull.
 """
@@ -772,6 +841,7 @@ From Boltons Require Import Lib.Prelude Lib.PySrc Lib.C11_Iface Model.C11_Model 
 def generate(repo):
     path = os.path.join(repo, "boltons", "setutils.py")
     tree = ast.parse(open(path).read())
+    check_literals(tree)
     rm = _method(tree, "remove")
     if [a.arg for a in rm.args.args] != ["self", "item"] or rm.args.defaults:
         raise Unsupported("unexpected signature of remove")
